@@ -52,16 +52,22 @@ def run(ctx):
     lclasses = {}
     for t in like:
         lclasses[t["cls"]] = lclasses.get(t["cls"], 0) + 1
-    for c in ("trailing-empty-check-hoisted-across-OR", "agree:hoisted-inside-one-conjunction",
-              "agree:swapped-inside-one-conjunction", "agree:unchanged"):
+    for c in ("agree:hoisted-inside-one-conjunction", "agree:swapped-inside-one-conjunction", "agree:unchanged"):
         if not lclasses.get(c):
             raise InfraError("vacuous generation: LIKE class %s has no shape" % c)
+    if not any(t.get("clsaw") for t in like):
+        raise InfraError("vacuous generation: no shape on which the pre-9f6402e optimizer would hoist across an OR")
+    # negative control: the optimizer as written before /repo 9f6402e must be rejected by TLC
+    neg = ctx.tlc("sqlrewrite", "SqlRewriteLike", "Like_AsWritten.cfg", timeout=900, workers=2, allow_violation=True)
+    if not neg.violated:
+        raise InfraError("negative control Like_AsWritten.cfg was not rejected by TLC")
     if lk.coverage:
         for a in ("ApplyRule1", "ApplyRule2", "Judge"):
             if lk.coverage.get(a, (0, 0))[0] == 0:
                 raise InfraError("vacuous model: action %s never fired" % a)
     ctx.note("tlc_like", {"cfg": lcfg + ("" if quick else " + Like_Gen_large.cfg"), "distinct": lk.distinct + (extra.distinct if extra else 0),
-                          "generated": lk.generated + (extra.generated if extra else 0), "depth": lk.depth, "invariant": "ClassesExact",
+                          "generated": lk.generated + (extra.generated if extra else 0), "depth": lk.depth, "invariants": ["ClassesExact", "Equivalent"],
+                          "negative_control_rejected": "Like_AsWritten.cfg",
                           "shapes": len(like), "shapes_per_class": lclasses,
                           "actions_fired": {k: v[0] for k, v in (lk.coverage or {}).items()}})
 
